@@ -178,6 +178,7 @@ type env struct {
 	overlapNote []string
 	panicsRun   atomic.Int64
 	nestedDone  atomic.Int64
+	abandoned   atomic.Bool
 }
 
 var curEnv atomic.Pointer[env]
@@ -425,7 +426,12 @@ func (e *env) submit(rec *jobRec) {
 
 // ---------------------------------------------------------------- the case
 
-const watchdog = 90 * time.Second
+const watchdog = 45 * time.Second
+
+// watchdogsFired counts cases abandoned by a watchdog in this process; after a
+// few of them the remaining cases are skipped (reported as inconclusive) so
+// that what was found so far is still written out.
+var watchdogsFired atomic.Int32
 
 func waitTimeout(wg *sync.WaitGroup, d time.Duration) bool {
 	ch := make(chan struct{})
@@ -628,7 +634,7 @@ func runCase(r *h.Run, c caseT) {
 			go func() {
 				defer wg.Done()
 				<-startGate
-				for spins := 0; e.issued.Load() < at; spins++ {
+				for spins := 0; e.issued.Load() < at && !e.abandoned.Load(); spins++ {
 					runtime.Gosched()
 					if spins > 2000 {
 						time.Sleep(50 * time.Microsecond) // submitters are slow (or stuck): do not burn a core
@@ -643,6 +649,8 @@ func runCase(r *h.Run, c caseT) {
 		r.Inconclusive(fmt.Sprintf("case=%d submitters did not return within the watchdog (%v); stacks in log", c.Index, watchdog))
 		fmt.Println(h.Stacks())
 		curEnv.Store(nil)
+		e.abandoned.Store(true)
+		watchdogsFired.Add(1)
 		return // engine and goroutines are abandoned; no verdict
 	}
 
@@ -667,6 +675,7 @@ func runCase(r *h.Run, c caseT) {
 	// ---- quiescence
 	final, lost := e.settle(r)
 	if !final {
+		watchdogsFired.Add(1)
 		teardown()
 		return
 	}
@@ -798,6 +807,32 @@ func (e *env) settle(r *h.Run) (final bool, lost bool) {
 	}
 }
 
+// jobsLen and stillOpen read connection state under the connection's own
+// mutex. After all activity has ended that mutex is free on any sane tree; a
+// tree that leaves it locked forever (e.g. a panic while holding it) must not
+// hang the judge, so the read is abandoned after a while (-1 / false).
+func jobsLen(c *nbio.Conn) int {
+	ch := make(chan int, 1)
+	go func() { ch <- nbio.VerifJobs(c) }()
+	select {
+	case n := <-ch:
+		return n
+	case <-time.After(3 * time.Second):
+		return -1
+	}
+}
+
+func stillOpen(c *nbio.Conn) bool {
+	ch := make(chan bool, 1)
+	go func() { ch <- !nbio.VerifBacklog(c).Closed }()
+	select {
+	case open := <-ch:
+		return open
+	case <-time.After(3 * time.Second):
+		return false
+	}
+}
+
 func (e *env) describe(rec *jobRec) string {
 	kind := "Execute"
 	if rec.must {
@@ -849,7 +884,7 @@ func (e *env) neighbourhood(conn int, ticks ...int64) string {
 		sb.WriteByte('\n')
 	}
 	cs := e.conns[conn]
-	fmt.Fprintf(&sb, "conn %d: Close[%d,%d] OnClose@%d appended=%d started=%d ended=%d VerifJobs=%d", conn, cs.closeCall.Load(), cs.closeRet.Load(), cs.onClose.Load(), cs.appended.Load(), cs.started.Load(), cs.ended.Load(), nbio.VerifJobs(cs.c))
+	fmt.Fprintf(&sb, "conn %d: Close[%d,%d] OnClose@%d appended=%d started=%d ended=%d VerifJobs=%d", conn, cs.closeCall.Load(), cs.closeRet.Load(), cs.onClose.Load(), cs.appended.Load(), cs.started.Load(), cs.ended.Load(), jobsLen(cs.c))
 	return sb.String()
 }
 
@@ -875,7 +910,7 @@ func (e *env) judge(r *h.Run, lost bool) {
 			if lost {
 				sig := "c05:lost-job"
 				what := "the job list is empty and no drainer exists"
-				if nbio.VerifJobs(cs.c) > 0 {
+				if jobsLen(cs.c) > 0 {
 					sig = "c05:queue-stuck-without-drainer"
 					what = "the job list is non-empty but no drainer exists or can appear"
 				}
@@ -915,7 +950,7 @@ func (e *env) judge(r *h.Run, lost bool) {
 			if cc == 0 {
 				// never closed by the harness: closed is a one-way flag, so
 				// "still open now" means it was open during the call
-				openFor = !nbio.VerifBacklog(cs.c).Closed
+				openFor = stillOpen(cs.c)
 			} else if rec.ret.Load() < cc && oc > cc && (cr == 0 || oc < cr) {
 				// returned before the harness invoked Close, and it was that
 				// Close which closed the connection (OnClose fired inside it)
@@ -1001,6 +1036,10 @@ func main() {
 	for i := 0; i < n; i++ {
 		if !r.Mine(i) {
 			continue
+		}
+		if watchdogsFired.Load() >= 2 {
+			r.Inconclusive(fmt.Sprintf("watchdogs fired in %d cases of this process: cases from index %d on were skipped", watchdogsFired.Load(), i))
+			break
 		}
 		runCase(r, genCase(r, i))
 	}
